@@ -1285,12 +1285,12 @@ package yqlib
 //@   ensures @same-number {C05} result == original
 
 //@ func (*CandidateNode).copyFromYamlNode
-//@   props C05 C13
+//@   props C05 C13 C10
 //@   nosafety
 //@   requires o != nil && node != nil
 //@   requires anchorMap != nil
 //@   modifies o.Style, o.Tag, o.Value, o.Anchor, o.Alias, o.HeadComment, o.LineComment, o.FootComment, o.Line, o.Column, anchorMap[*]
-//@   ensures @latest-anchor-wins {C13} implies(node.Anchor != "", anchorMap[node.Anchor] == o)
+//@   ensures @latest-anchor-wins {C13,C10} implies(node.Anchor != "", anchorMap[node.Anchor] == o)
 //@   ensures @alias-points-at-the-anchored-node {C13} implies(node.Alias != nil && node.Alias.Anchor != "" && node.Alias.Anchor != node.Anchor, o.Alias == old(anchorMap[node.Alias.Anchor]))
 //@   ensures @presentation-kept {C05} o.Style == node.Style && o.Tag == node.Tag && o.Value == node.Value && o.Anchor == node.Anchor && o.HeadComment == node.HeadComment && o.LineComment == node.LineComment && o.FootComment == node.FootComment && o.Line == node.Line && o.Column == node.Column
 
